@@ -72,6 +72,10 @@ func configuredCases(tier string) []*space.Case {
 		temporal := c.Tags["class"] == "time" || c.Tags["class"] == "duration"
 		if c.Tags["card"] == "single" || c.Tags["card"] == "embed" || temporal || c.Tags["vt"] == "string" || c.Tags["vt"] == "msgNullable" {
 			out = append(out, space.Variant(c, false, false, "flags"))
+			if c.Tags["card"] == "single" || temporal {
+				// computed with the default UseStateForUnknown switch and no explicit modifiers
+				out = append(out, space.Variant(c, false, false, "usu"))
+			}
 		}
 	}
 	// every shape-class representative below a position, under the option mixes (flags on every path,
